@@ -18,7 +18,18 @@
    performed, B's request is answered without a check (and must not move the
    medium's timestamp); then a publication is lost on the quiet channel.  A's
    tick at 100 is 50 s after the last PERFORMED check: it must consult the
-   stream and end the positioned subscriptions.                              *)
+   stream and end the positioned subscriptions.
+
+   Scenario 3 (queue over its size limit when the shared check detects a loss;
+   option sets with a queue and no delay): four publications; the writer is
+   held inside the broadcast of the first (WriterTake(park)); the second and
+   third are queued (2 bytes > limit 1), the fourth is dropped by the medium:
+   a lost publication.  The clock passes the check delay, one connection's
+   tick finds its position stale: the sentinel must be queued whatever the
+   queue size (only publications are dropped on overflow).  The writer is
+   released: with the shared check every positioned subscriber is ended.
+   (While the writer is parked it holds the hub's read lock: a spawned
+   unsubscribe cannot finish before the release.)                            *)
 EXTENDS Medium
 
 VARIABLES k, scen, fst
@@ -31,6 +42,10 @@ Script ==
     THEN << [a |-> "Publish"], [a |-> "Publish"], [a |-> "Drop", o |-> 2], [a |-> "Adv", d |-> 50],
             [a |-> "TickOne", s |-> fst], [a |-> "Deliver", o |-> 1],
             [a |-> "Flush"], [a |-> "Flush"] >>       \* (no tick after a delivery: the client stamps it with the wall clock)
+    ELSE IF scen = 3
+    THEN << [a |-> "Publish"], [a |-> "Publish"], [a |-> "Publish"], [a |-> "Publish"],
+            [a |-> "Deliver", o |-> 1], [a |-> "Park"], [a |-> "Deliver", o |-> 2], [a |-> "Deliver", o |-> 3], [a |-> "Deliver", o |-> 4],
+            [a |-> "Adv", d |-> 50], [a |-> "TickOne", s |-> fst], [a |-> "Done"] >>
     ELSE << [a |-> "Adv", d |-> 50], [a |-> "TickOne", s |-> fst], [a |-> "Adv", d |-> 12], [a |-> "TickOne", s |-> Other(fst)],
             [a |-> "Publish"], [a |-> "Drop", o |-> 1],
             [a |-> "Adv", d |-> 38], [a |-> "TickOne", s |-> fst], [a |-> "Flush"], [a |-> "Flush"],
@@ -46,16 +61,21 @@ Op(op) ==
     [] op.a = "Adv"     -> Advance(op.d)
     [] op.a = "TickOne" -> IF Positioned(op.s) /\ Live(op.s) THEN TickOne(op.s, "ok") ELSE Nop
     [] op.a = "Flush"   -> IF med /\ opts.queue /\ opts.delay /\ q # <<>> THEN WriterTick ELSE Nop
+    [] op.a = "Park"    -> Nop                     \* (the writer had nothing to take)
+    [] op.a = "Done"    -> IF wpc = "busy" THEN WriterDone ELSE Nop
 
 AimNext ==
-  IF \E s \in Subs : pend[s] > 0
+  IF wpc # "busy" /\ \E s \in Subs : pend[s] > 0
     THEN (\E s \in Subs : AsyncEnd(s)) /\ UNCHANGED <<k, scen, fst>>
   ELSE IF WriterCanTake
-    THEN WriterTake(FALSE) /\ UNCHANGED <<k, scen, fst>>
+    THEN IF k <= Len(Script) /\ Script[k].a = "Park"
+           THEN WriterTake(TRUE) /\ k' = k + 1 /\ UNCHANGED <<scen, fst>>
+           ELSE WriterTake(FALSE) /\ UNCHANGED <<k, scen, fst>>
   ELSE /\ k <= Len(Script)
        /\ Op(Script[k])
        /\ k' = k + 1 /\ UNCHANGED <<scen, fst>>
 
-AimInit == Init /\ k = 1 /\ scen \in {1, 2} /\ fst \in {"p1", "p2"}
+AimInit == Init /\ k = 1 /\ scen \in {1, 2, 3} /\ fst \in {"p1", "p2"}
+           /\ (scen = 3 => (opts.queue /\ ~opts.delay))
 AimSpec == AimInit /\ [][AimNext]_aimvars
 =============================================================================
